@@ -136,10 +136,16 @@ extern "C" void __wrap_free(void *p) {
 // overwrite the stack region the next API call will use, so "uninitialised" is a seeded value. The fill is one byte value per call
 // (a function of mode and seed only): a pattern that varied with the position would make what an uninitialised read sees depend on
 // the caller's stack depth and on ASLR, i.e. differ between the original run, its in-process repeat and a fresh-process replay.
+static unsigned char scribble_byte(int mode, uint64_t seed) { uint64_t x = seed; return mode == 0 ? 0x00 : mode == 1 ? 0xFF : mode == 2 ? 0xAA : mode == 3 ? 0x7f : (unsigned char)(splitmix64(x) >> 24); }
 __attribute__((noinline)) void stack_scribble(int mode, uint64_t seed) {
   volatile unsigned char buf[192 * 1024];
-  uint64_t x = seed; unsigned char v = mode == 0 ? 0x00 : mode == 1 ? 0xFF : mode == 2 ? 0xAA : mode == 3 ? 0x7f : (unsigned char)(splitmix64(x) >> 24);
-  for (size_t i = 0; i < sizeof buf; i += 1) buf[i] = v;
+  memset((void *)buf, scribble_byte(mode, seed), sizeof buf);
+  __asm__ volatile("" ::"r"(buf) : "memory");
+}
+// cheap variant for calls repeated tens of thousands of times in one run (the decode path keeps its large arrays on the heap)
+__attribute__((noinline)) void stack_scribble_small(int mode, uint64_t seed) {
+  volatile unsigned char buf[24 * 1024];
+  memset((void *)buf, scribble_byte(mode, seed), sizeof buf);
   __asm__ volatile("" ::"r"(buf) : "memory");
 }
 
